@@ -201,6 +201,7 @@ func main() {
 		replayAll(cases, 0, 1)
 	}
 	run.Traces(int64(len(cases)))
+	sizeSweep(tier)
 	concurrent(tier)
 	run.Exhaustive = true
 	run.Finish()
@@ -575,6 +576,71 @@ func use(h *holding, kind string) {
 	default:
 		core.Fatalf("unknown use kind %q", kind)
 	}
+}
+
+// sizeSweep instantiates the history [tokenize x, hold the tokens; tokenize y on the same instance] with an x of EVERY
+// token count from 5 to N: whether a returned slice shares storage with something the tokenizer keeps depends on how
+// the count relates to buffer capacities, which no fixed statement can cover. Both ways of reusing the instance
+// (directly; through the pool, pinned to one thread) and both entry points are used, with a shorter and a longer y.
+func sizeSweep(tier string) {
+	n := 900
+	if tier == "thorough" {
+		n = 3400
+	}
+	var cols []string
+	others := []string{"DELETE FROM audit_log WHERE id = 1", "UPDATE audit_log SET seen = 1, " + strings.Repeat("k = k + 1, ", 60) + "z = 0 WHERE id IN (1, 2, 3)"}
+	checked := 0
+	for k := 1; 2*k+4 <= n; k++ {
+		cols = append(cols, fmt.Sprintf("c%d", k))
+		for _, tail := range []string{" FROM t", " FROM t x"} { // 2k+3 and 2k+4 tokens with the end marker
+			sql := "SELECT " + strings.Join(cols, ", ") + tail
+			for mode := 0; mode < 4; mode++ {
+				var held []models.TokenWithSpan
+				var err error
+				direct := tokenizer.GetTokenizer()
+				switch mode {
+				case 0: // pooled, Tokenize
+					held, err = direct.Tokenize([]byte(sql))
+					tokenizer.PutTokenizer(direct)
+				case 1: // pooled, TokenizeContext
+					held, err = direct.TokenizeContext(context.Background(), []byte(sql))
+					tokenizer.PutTokenizer(direct)
+				case 2, 3: // the caller keeps using its own instance
+					held, err = direct.Tokenize([]byte(sql))
+				}
+				if err != nil {
+					core.Fatalf("size sweep statement does not tokenize: %v", err)
+				}
+				before := tokDigest(held)
+				for _, o := range others {
+					t2 := direct
+					if mode < 2 {
+						t2 = tokenizer.GetTokenizer()
+					}
+					if mode == 3 {
+						_, _ = t2.TokenizeContext(context.Background(), []byte(o))
+					} else {
+						_, _ = t2.Tokenize([]byte(o))
+					}
+					if mode < 2 {
+						tokenizer.PutTokenizer(t2)
+					}
+				}
+				if mode >= 2 {
+					tokenizer.PutTokenizer(direct)
+				}
+				run.Eval(1)
+				checked++
+				if after := tokDigest(held); after != before {
+					run.Violate(core.Violation{Sig: "held-value-modified|tokens|after-tokenize", Clause: "values handed to the caller are never modified by later library activity",
+						Case:    map[string]any{"kind": "size-sweep", "token_count": len(held), "reuse": []string{"pool", "pool+context", "direct", "direct+context"}[mode], "sql_prefix": firstN(sql, 80)},
+						Observe: firstN(after, 300), Expect: firstN(before, 300)})
+				}
+			}
+		}
+	}
+	run.Nontrivial(fmt.Sprintf("size-sweep-%d", n))
+	run.Extra["size_sweep_token_counts"] = fmt.Sprintf("5..%d, %d holdings", n, checked)
 }
 
 // concurrent holds one result of every kind while other goroutines parse, release and draw from the pools; the
